@@ -101,6 +101,53 @@ theorem iftComplete_ftComplete {n : Nat} (hn : 0 < n) (ζ : K) (hζ : IsPrimitiv
   calc y k * dt * (n : K) * c = y k * (dt * (n : K) * c) := by ring
     _ = y k := by rw [e, mul_one]
 
+/-! ## upper-half axes -/
+
+theorem shift_back (n h j : Nat) (hh : h < n) (hj : j < n) : ((j + h) % n + n - h) % n = j := by
+  by_cases hc : j + h < n
+  · rw [Nat.mod_eq_of_lt hc]
+    have : j + h + n - h = j + n := by omega
+    rw [this, Nat.add_mod_right, Nat.mod_eq_of_lt hj]
+  · have e : (j + h) % n = j + h - n := by
+      rw [Nat.mod_eq_sub_mod (by omega), Nat.mod_eq_of_lt (by omega)]
+    rw [e]
+    have : j + h - n + n - h = j := by omega
+    rw [this, Nat.mod_eq_of_lt hj]
+
+/-- `ifftshift` undoes `fftshift`, every length -/
+theorem ifftshift_fftshift {β : Type} {n : Nat} (hn : 0 < n) (x : Fin n → β) : ifftshift (fftshift x) = x := by
+  have hh : n / 2 < n := Nat.div_lt_self hn (by norm_num)
+  funext j
+  unfold ifftshift fftshift roll
+  congr 1
+  apply Fin.ext
+  show ((j.val + n - (n - n / 2) % n) % n + n - (n / 2) % n) % n = j.val
+  rw [rot_mod n (n / 2) j.val hh, Nat.mod_eq_of_lt hh]
+  exact shift_back n (n / 2) j.val hh j.isLt
+
+/-- the upper-half transform is the complete transform of the centred Hermitian extension -/
+theorem ftUpper_eq_ftComplete {N : Nat} (hN : 0 < N) (conj : K → K) (ζi dt : K) (y : Fin N → K) :
+    ftUpper conj ζi dt y = ftComplete ζi dt (fftshift (hermExt conj y)) := by
+  funext j
+  unfold ftUpper ftComplete
+  rw [ifftshift_fftshift (by omega)]
+
+/-- **transform, then inverse transform, on upper-half axes gives the function back**: every number `N` of time points,
+every data (the first value need not be real), whatever conjugation fills the lower half -/
+theorem iftUpper_ftUpper {N : Nat} (hN : 0 < N) (conj : K → K) (ζ : K) (hζ : IsPrimitiveRoot ζ (2 * N)) (dt c : K)
+    (hc : dt * c * ((2 * N : Nat) : K) = 1) (y : Fin N → K) (k : Fin N) :
+    iftUpper ζ c (ftUpper conj ζ⁻¹ dt y) k = y k := by
+  unfold iftUpper
+  rw [ftUpper_eq_ftComplete hN, iftComplete_ftComplete (by omega) ζ hζ dt c hc]
+  unfold fftshift roll hermExt
+  have hk := k.isLt
+  have h1 : (2 * N) / 2 = N := by omega
+  have h2 : N % (2 * N) = N := Nat.mod_eq_of_lt (by omega)
+  have h3 : (N + k.val + 2 * N - N) % (2 * N) = k.val := by
+    have : N + k.val + 2 * N - N = k.val + 2 * N := by omega
+    rw [this, Nat.add_mod_right, Nat.mod_eq_of_lt (by omega)]
+  simp only [h1, h2, h3, hk, dif_pos]
+
 /-- the hypothesis is satisfiable for every length: over ℂ the number `e^{2πi/n}` is a primitive `n`-th root -/
 example (n : ℕ) (hn : n ≠ 0) : ∃ ζ : ℂ, IsPrimitiveRoot ζ n := ⟨_, Complex.isPrimitiveRoot_exp n hn⟩
 
